@@ -776,6 +776,7 @@ TOP:
 		return
 	}
 	if fd != nil {
+		verifYield("resolveReflect")
 		fd.mu.Lock()
 		goField := fd.goField
 		method := fd.method
